@@ -66,6 +66,8 @@ class WalkInterp(Interp):
         if isinstance(callee, FuncRef) and callee.fi.cls is not None:
             nm = callee.fi.name
             owner = callee.fi.cls.name
+            if owner == 'TemplateCompiler':
+                return self.NOT_HANDLED      # the compiler's recording methods are analysed, not abstracted
             if nm in EMIT and self.repo.is_subclass(owner, 'Coder'):
                 # args: state, bit_operator, descriptor, ...
                 self.event('emit', nm, list(args[2:]), self.where(node, frame))
